@@ -232,6 +232,20 @@ func (vc *VC) mergeStates(sts []*State) *State {
 		}
 	}
 	for l := range allLocks {
+		if strings.HasPrefix(l, "#n:") {
+			// acquisition counters: equal on all paths, or unknown (-1)
+			v, same := sts[0].locks[l], true
+			for _, s := range sts {
+				if s.locks[l] != v {
+					same = false
+				}
+			}
+			if !same {
+				v = -1
+			}
+			out.locks[l] = v
+			continue
+		}
 		m := 2
 		every := true
 		for _, s := range sts {
